@@ -76,6 +76,7 @@ def _find_subseq(toks, lo, hi, pat):
 class Emitter:
     def __init__(self, repo_root, verif_root, demote=None):
         self.repo, self.verif = repo_root, verif_root
+        self.const_records = []
         self.demote = set(demote or [])   # qnames emitted as external_body (no longer within Verus' reach)
         self.files = {}
         self.records = []
@@ -148,6 +149,21 @@ class Emitter:
                 self._out("//@@FMT_LITS@@\n"); i += 1; continue
             if ln.startswith("//@include "):
                 self._process_file(os.path.join(self.verif, ln.split(None, 1)[1].strip()))
+                i += 1; continue
+            if ln.startswith("//@consts "):
+                # every top-level `const` item of the file, verbatim (visibility widened, attributes dropped):
+                # constants the verified bodies use - including ones a change introduces - come from the
+                # source, never from the template
+                rel = ln.split(None, 1)[1].strip()
+                F = self.file(rel)
+                n = 0
+                for it in F.items:
+                    if it.kind == "const" and it.body_open is None:
+                        self._out("pub " + F.clean[F.toks[it.kw].start:F.toks[it.end].end] + "\n", F.path, F.toks[it.kw].start)
+                        self.const_records.append({"name": it.name, "file": rel,
+                                                   "line": F.src.count("\n", 0, F.toks[it.kw].start) + 1,
+                                                   "text": re.sub(r"\s+", " ", F.clean[F.toks[it.kw].start:F.toks[it.end].end])})
+                        n += 1
                 i += 1; continue
             if ln.startswith("//@fn ") or ln.startswith("//@struct ") or ln.startswith("//@enum "):
                 j = i + 1
